@@ -50,14 +50,46 @@ def random_npc_matrix(rng, spec):
             a = a + 1j * rng.normal(size=shape)
         return a
     a = npc.Array.from_func(func, legs, dtype=np.complex128 if spec['complex'] else np.float64, qtotal=qtotal,
-                            labels=['a', 'b'])
+                            labels=spec.get('labels', ['a', 'b']))
     if spec.get('lowrank'):
         # make it rank deficient: project some columns to zero
         d = a.to_ndarray()
         a = a * 1.0
         for blk in a._data[::2]:
             blk[:, : blk.shape[1] // 2] = 0
+    if spec.get('tiny_rank'):
+        # large matrix of tiny numerical rank: every charge block becomes (rank-r matrix with singular values in [0.3, 1])
+        # + noise * (random matrix of norm ~ 1); the truncated SVD then shrinks the bond by a huge factor
+        r0, noise = spec['tiny_rank']['rank'], spec['tiny_rank']['noise']
+        for blk in a._data:
+            m, n = blk.shape
+            r = min(r0, m, n)
+            x = np.linalg.qr(func((m, r)))[0]
+            y = np.linalg.qr(func((n, r)))[0].T
+            w = rng.uniform(0.3, 1.0, size=r)
+            blk[...] = (x * w) @ y + (noise * func((m, n)) / max(m, n) if noise else 0.)
     return a
+
+
+def _leg_problems(U, VH, a):
+    """documented leg structure of the factors: outer legs are the legs of theta, the two new legs are contractible"""
+    out = []
+    for what, l1, l2, contr in (('U.legs[0] != theta.legs[0]', U.legs[0], a.legs[0], False),
+                                ('VH.legs[1] != theta.legs[1]', VH.legs[1], a.legs[1], False),
+                                ('U.legs[1] not contractible with VH.legs[0]', U.legs[1], VH.legs[0], True)):
+        try:
+            (l1.test_contractible if contr else l1.test_equal)(l2)
+            # independent of LegCharge.test_*: flat charges with their sign agree (equal: q*qconj; contractible: opposite)
+            q1 = a.chinfo.make_valid(l1.to_qflat() * l1.qconj)
+            q2 = a.chinfo.make_valid(l2.to_qflat() * l2.qconj * (-1 if contr else 1))
+            if l1.ind_len != l2.ind_len or not np.array_equal(q1, q2):
+                out.append(what + ' (flat charges)')
+            # npc.svd: "U.legs[1] = VH.legs[0].conj()", "VH.legs[0].qconj = inner_qconj" (default +1)
+            if contr and (l1.qconj, l2.qconj) != (-1, +1):
+                out.append('qconj of the new legs (U, VH) = (%d, %d), documented (-1, +1)' % (l1.qconj, l2.qconj))
+        except Exception as e:
+            out.append(what + ' (%s)' % type(e).__name__)
+    return out
 
 
 def run_decomp(case):
@@ -71,19 +103,40 @@ def run_decomp(case):
     nrm = npc.norm(a)
     if nrm == 0:
         return {'skip': 'zero matrix'}
+    dense = a.to_ndarray()
+    labels_in = list(a.get_leg_labels())
+    kw = {}
+    if case.get('inner_labels') is not None:
+        kw['inner_labels'] = list(case['inner_labels'])
+    inner = kw.get('inner_labels', ['vR', 'vL'])        # documented default
     try:
-        U, S, VH, err, renorm = svd_theta(a, dict(opts))
+        with warnings.catch_warnings(record=True) as wlist:
+            warnings.simplefilter('always')
+            U, S, VH, err, renorm = svd_theta(a, dict(opts), **kw)
     except Exception as e:
         return {'error': type(e).__name__ + ': ' + str(e)[:100]}
-    rec = npc.tensordot(U.scale_axis(S * renorm, 1), VH, axes=1)
-    dense = a.to_ndarray()
-    diff = np.linalg.norm(rec.to_ndarray() - dense) ** 2 / nrm ** 2
+    # plain numpy reconstruction from the raw entries (independent of labels / charges / leg directions)
+    Ud, VHd = U.to_ndarray(), VH.to_ndarray()
+    diff = np.linalg.norm((Ud * (S * renorm)) @ VHd - dense) ** 2 / nrm ** 2
     sv = np.linalg.svd(dense, compute_uv=False)
     out['svd'] = {'eps': float(err.eps), 'rel_err2': float(diff), 'normS': float(np.linalg.norm(S)),
                   'chi': int(len(S)), 'renorm': float(renorm), 'norm_theta': float(nrm),
                   'dense_sv': [float(x) for x in sv], 'S': [float(x) for x in S],
-                  'UdU': float(np.linalg.norm((U.conj().to_ndarray().T @ U.to_ndarray()) - np.eye(len(S)))),
-                  'VVd': float(np.linalg.norm((VH.to_ndarray() @ VH.conj().to_ndarray().T) - np.eye(len(S))))}
+                  'UdU': float(np.linalg.norm((Ud.conj().T @ Ud) - np.eye(len(S)))),
+                  'VVd': float(np.linalg.norm((VHd @ VHd.conj().T) - np.eye(len(S)))),
+                  'U_labels': list(U.get_leg_labels()), 'VH_labels': list(VH.get_leg_labels()),
+                  'want_U_labels': [labels_in[0], inner[0]], 'want_VH_labels': [inner[1], labels_in[1]],
+                  'leg_problems': _leg_problems(U, VH, a),
+                  'qtotal_ok': bool(np.array_equal(a.chinfo.make_valid(U.qtotal + VH.qtotal), a.qtotal)),
+                  'dtypes': [str(U.dtype), str(VH.dtype), str(a.dtype), str(np.asarray(S).dtype)],
+                  'theta_unchanged': bool(np.array_equal(a.to_ndarray(), dense) and list(a.get_leg_labels()) == labels_in),
+                  'warnings': [str(w.message)[:60] for w in wlist if issubclass(w.category, UserWarning)][:3]}
+    # the documented formula, literally: theta ~= tensordot(U.scale_axis(S*renormalization, 1), VH, axes=1)
+    try:
+        rec = npc.tensordot(U.scale_axis(S * renorm, 1), VH, axes=1)
+        out['svd']['rel_err2_npc'] = float(npc.norm(rec - a) ** 2 / nrm ** 2)
+    except Exception as e:
+        out['svd']['rec_error'] = type(e).__name__ + ': ' + str(e)[:80]
     if case.get('eigh'):
         # density matrix rho = a a^dagger
         rho = npc.tensordot(a, a.conj(), axes=[1, 1])
